@@ -47,6 +47,7 @@ type env struct {
 	h      *rm.Host
 	dir    string // layout directory of the subjects (base image, multi-platform index)
 	artDir string // layout directory the artifacts are pushed to (== dir unless External)
+	srcDir string // source layout holding every pool artifact tagged (only when some artifact is pushed from a fetched object)
 	tmp    string
 	main   *regclient.RegClient
 	// arm: called (without the model lock) on every request arrival while set; used to cancel a context mid-operation
@@ -96,6 +97,43 @@ func writeBlobFile(dir string, b []byte) error {
 	d := rm.Digest("sha256", b)
 	p := filepath.Join(dir, "blobs", "sha256", d[len("sha256:"):])
 	return os.WriteFile(p, b, 0o644)
+}
+
+const (
+	aRefName = "org.opencontainers.image.ref.name"
+	aSrcNote = "org.example.index-entry-note"
+)
+
+// buildSource writes a source layout that holds every pool artifact, each tagged "src<i>" by an index entry that
+// also carries another annotation (what a manifest read from there has on its DESCRIPTOR, not in its body).
+func (e *env) buildSource(u *universe) error {
+	if e.tmp == "" {
+		tmp, err := os.MkdirTemp("", "c10")
+		if err != nil {
+			return err
+		}
+		e.tmp = tmp
+	}
+	e.srcDir = filepath.Join(e.tmp, "source")
+	entries := []string{}
+	for _, alg := range []string{"sha256", "sha512"} {
+		if err := os.MkdirAll(filepath.Join(e.srcDir, "blobs", alg), 0o755); err != nil {
+			return err
+		}
+	}
+	for _, a := range u.arts {
+		alg, hx, _ := cut(a.objDigest)
+		if err := os.WriteFile(filepath.Join(e.srcDir, "blobs", alg, hx), a.body, 0o644); err != nil {
+			return err
+		}
+		entries = append(entries, descJSON(a.mediaType, a.objDigest, len(a.body),
+			fmt.Sprintf(`,"annotations":{%s:%s,%s:"from the source index"}`, jstr(aRefName), jstr(fmt.Sprintf("src%d", a.idx)), jstr(aSrcNote))))
+	}
+	if err := os.WriteFile(filepath.Join(e.srcDir, "oci-layout"), []byte(`{"imageLayoutVersion":"1.0.0"}`), 0o644); err != nil {
+		return err
+	}
+	idx := fmt.Sprintf(`{"schemaVersion":2,"mediaType":%s,"manifests":[%s]}`, jstr(rm.MTOCIIndex), strings.Join(entries, ","))
+	return os.WriteFile(filepath.Join(e.srcDir, "index.json"), []byte(idx), 0o644)
 }
 
 func setup(sys Sys) (*env, error) {
